@@ -4,6 +4,7 @@
 # Copyright (c) 2015-2020, Ilya Etingof <etingof@gmail.com>
 # License: http://snmplabs.com/pysmi/license.html
 #
+import errno
 import os
 import sys
 import tempfile
@@ -43,10 +44,18 @@ class FileWriter(AbstractWriter):
             f.close()
             return data
 
-        except (OSError, IOError, UnicodeEncodeError):
+        except (OSError, IOError, UnicodeError):
+            exc = sys.exc_info()[1]
+
             if f:
                 f.close()
-            return ''
+
+            # nothing has been stored under this name yet
+            if getattr(exc, 'errno', None) == errno.ENOENT:
+                return ''
+
+            # what is stored cannot be read: not the same as nothing stored
+            raise error.PySmiWriterError('failure reading file %s: %s' % (filename, exc), writer=self)
 
     def putData(self, mibname, data, comments=(), dryRun=False):
         if dryRun:
